@@ -76,6 +76,9 @@ Arguments findLocalMinimum {Fld Hess}. Arguments linsolve {Fld Hess}.
 Arguments vneg {Fld Hess}. Arguments norm {Fld Hess}. Arguments eigvalsh {Fld Hess}.
 Arguments rk_step {Fld Hess}.
 
+(** kinds of the straight-line segments of the generated loop body *)
+Inductive segkind := KUpd | KBrk | KCont.
+
 (** mutable variables of one integration direction of tracePhase *)
 Record lstate (Fld : Type) := mk_lstate {
   l_ode : ode Fld;                 (* ode *)
@@ -169,4 +172,28 @@ Proof.
   intros Hin Hall. assert (Hne : l <> []) by (intros E; subst l; destruct Hin).
   destruct (lmax_spec l Hne) as [I1 I2].
   rewrite Forall_forall in Hall, I2. specialize (Hall _ I1). specialize (I2 _ Hin). lra.
+Qed.
+
+(** the same loop, also reporting WHY it ended and the state on which the body last ran *)
+Inductive endreason := EFuel | ECond | EBreak.
+Fixpoint run_while_r {S : Type} (fuel : nat) (c : S -> bool) (body : S -> S * bool) (s : S)
+  : S * endreason * S :=
+  match fuel with
+  | O => (s, EFuel, s)
+  | Datatypes.S n => if c s then (let '(s', brk) := body s in
+                                  if brk then (s', EBreak, s) else run_while_r n c body s')
+                     else (s, ECond, s)
+  end.
+Lemma run_while_r_spec {S : Type} (c : S -> bool) (body : S -> S * bool) fuel s :
+  let '(s', why, s0) := run_while_r fuel c body s in
+  s' = run_while fuel c body s /\
+  match why with
+  | EFuel => True
+  | ECond => c s' = false
+  | EBreak => c s0 = true /\ body s0 = (s', true)
+  end.
+Proof.
+  revert s. induction fuel as [|n IH]; intros s; cbn [run_while_r run_while]; [split; auto|].
+  destruct (c s) eqn:Hc; [|split; auto].
+  destruct (body s) as [s1 brk] eqn:Hb. destruct brk; [split; auto|]. apply IH.
 Qed.
